@@ -210,13 +210,24 @@ def parse_assumptions(target_v, out):
     return d
 
 
-def build_driver():
-    key = tree_hash([os.path.join(OCAML, "driver.ml"), os.path.join(OCAML, "sakura_model.ml")])
-    if stamp_ok("driver", key) and os.path.exists(os.path.join(OCAML, "driver")):
+def build_driver(name="core"):
+    """ocaml/<name>_driver.ml (body) + common.ml.inc + main.ml.inc over the extracted <name>_model.ml"""
+    model = os.path.join(OCAML, "%s_model.ml" % name)
+    body = os.path.join(OCAML, "%s_driver.ml" % name)
+    binp = os.path.join(OCAML, "%s_driver.bin" % name)
+    key = tree_hash([model, body, os.path.join(OCAML, "common.ml.inc"), os.path.join(OCAML, "main.ml.inc")])
+    if stamp_ok("driver_" + name, key) and os.path.exists(binp):
         return 0, "cached"
-    rc, out = sh("ocamlfind ocamlopt -w -a sakura_model.mli sakura_model.ml driver.ml -o driver", cwd=OCAML, timeout=600)
+    full = os.path.join(OCAML, "_%s_main.ml" % name)
+    with open(full, "w", encoding="utf-8") as f:
+        f.write("open %s_model\n" % name.capitalize())
+        f.write(open(os.path.join(OCAML, "common.ml.inc"), encoding="utf-8").read())
+        f.write(open(body, encoding="utf-8").read())
+        f.write(open(os.path.join(OCAML, "main.ml.inc"), encoding="utf-8").read())
+    rc, out = sh("ocamlfind ocamlopt -w -a %s_model.mli %s_model.ml _%s_main.ml -o %s_driver.bin" % (name, name, name, name),
+                 cwd=OCAML, timeout=900)
     if rc == 0:
-        stamp_set("driver", key)
+        stamp_set("driver_" + name, key)
     return rc, out
 
 
@@ -330,6 +341,7 @@ class Ctx:
         self.seed = seed
         self.rng = random.Random(seed)
         self.plugin = plugin
+        self.drivers = list(getattr(plugin, "DRIVERS", ["core"]))
         self.t0 = time.time()
         self.rundir = os.path.join(VERIF, ".run", "%s-%d" % (pid, os.getpid()))
         os.makedirs(self.rundir, exist_ok=True)
@@ -373,12 +385,13 @@ class Ctx:
             if bad:
                 self.proof_problems.append("forbidden constructs in the development: %s" % bad[:10])
             # extraction is part of the cone of the driver
-            ex = coq_build("extract/Extract.v")
-            if not ex["ok"]:
-                self.fatal("extraction of the model failed:\n" + ex["log"][-2000:])
-            rc, out = build_driver()
-            if rc != 0:
-                self.fatal("OCaml driver build failed:\n" + out[-2000:])
+            for drv in self.drivers:
+                ex = coq_build("extract/Extract_%s.v" % drv)
+                if not ex["ok"]:
+                    self.fatal("extraction of the model (%s) failed:\n" % drv + ex["log"][-2000:])
+                rc, out = build_driver(drv)
+                if rc != 0:
+                    self.fatal("OCaml driver %s build failed:\n" % drv + out[-2000:])
             rc, out = build_harness()
             if rc != 0:
                 self.fatal("/repo does not build (nothing can be decided):\n" + out[-3000:])
@@ -397,9 +410,10 @@ class Ctx:
         return run_cases(os.path.join(HARNESS, "target", "debug", "sakura_harness"), lines, self.rundir,
                          "impl%d" % self.batch, stall=stall, capture_stdout=capture_stdout)
 
-    def model(self, lines, stall=60.0):
+    def model(self, lines, stall=60.0, driver=None):
         self.batch += 1
-        return run_cases(os.path.join(OCAML, "driver"), lines, self.rundir, "model%d" % self.batch, stall=stall)
+        driver = driver or self.drivers[0]
+        return run_cases(os.path.join(OCAML, "%s_driver.bin" % driver), lines, self.rundir, "model%d" % self.batch, stall=stall)
 
     # --- bookkeeping ---
     def count(self, key, nontrivial_key=None):
